@@ -72,6 +72,20 @@ def run(ctx: Ctx):
         # request and answer share the command code (no override)
         if "code" in c.class_assigns or "code" in subs[0].class_assigns:
             ctx.fail(cons + "#code", c.loc(), f"{c.name}/{x}Answer override the command code of {x}")
+        # what the helpers copy into the answer must be readable from the request: an answer
+        # class that declares Session-Id / Proxy-Info pairs with a request class that does
+        from ..tables import extract_avp_defs as _defs
+        try:
+            ra = {d.attr_name for d in (_defs(model, c) or [])}
+            aa = {d.attr_name for d in (_defs(model, subs[0]) or [])}
+        except Exception:
+            ra = aa = set()
+        for attr in ("session_id", "proxy_info"):
+            if attr in aa and attr not in ra and ra:
+                ctx.fail(cons + f"#{attr}", c.loc(), f"{x}Answer declares `{attr}` but {c.name} does "
+                         f"not: a received {attr.replace('_', '-').title()} is not exposed as "
+                         f"`{attr}`, `hasattr(request, '{attr}')` is false and the generated answer "
+                         f"does not carry it")
 
     # ---------------- R2 header flow in to_answer ---------------------------------------------
     ctx.rule("C20-R2", "to_answer: fresh header from the five mirrored fields, other flags zero, "
